@@ -336,4 +336,8 @@ def _pytensor_get_mean_std(dist, in_unit, out_unit):
         mu = pars[0].eval()
         std = pars[1].eval()
 
+    # pytensor stores float32-representable constants (e.g. 6000.0, 0.5) as float32:
+    # convert units in double precision
+    mu = np.asarray(mu, dtype=np.float64)
+    std = np.asarray(std, dtype=np.float64)
     return (mu * in_unit).to_value(out_unit), (std * in_unit).to_value(out_unit)
